@@ -274,4 +274,15 @@ theorem reconstruct_split (c : Cfg) (start k last : Nat) (img : Img) (h1 : start
   have e2 : start + (k + 1 - start) = k + 1 := by omega
   rw [e2]
 
+/-- the sub-iterations themselves never look at `enforce_initial_positivity` (only `set_up` does) -/
+theorem runFrom_enforce_irrelevant (c : Cfg) (b : Bool) :
+    ∀ (n k : Nat) (img : Img), runFrom { c with enforceInitialPositivity := b } k n img = runFrom c k n img
+  | 0, _, _ => rfl
+  | n + 1, k, img => by
+    have hs : subIter { c with enforceInitialPositivity := b } k img = subIter c k img := rfl
+    simp only [runFrom, hs]
+    cases subIter c k img with
+    | none => rfl
+    | some img' => simp only [runFrom_enforce_irrelevant c b n (k + 1) img']
+
 end StirVerif.C07
